@@ -340,8 +340,14 @@ func (k *keyCapture) Handle(_ context.Context, r slog.Record) error {
 func (k *keyCapture) WithAttrs([]slog.Attr) slog.Handler { return k }
 func (k *keyCapture) WithGroup(string) slog.Handler      { return k }
 
+// mkReq: `p` is the path AS WRITTEN on the request line (the escaped form, url.URL.EscapedPath): the form the origin
+// is asked for and, since fix 248331e, the form the cache key is built from.
 func mkReq(tlsOn bool, method, host, p, q string) *http.Request {
-	r := &http.Request{Method: method, Host: host, URL: &url.URL{Path: p, RawQuery: q}, Header: http.Header{}}
+	u := &url.URL{Path: p, RawQuery: q}
+	if dec, err := url.PathUnescape(p); err == nil {
+		u.Path, u.RawPath = dec, p
+	}
+	r := &http.Request{Method: method, Host: host, URL: u, Header: http.Header{}}
 	if tlsOn {
 		r.TLS = &tls.ConnectionState{}
 	}
@@ -409,7 +415,7 @@ func init() {
 				if err != nil {
 					return "", "", "", "", false
 				}
-				return req.Method, req.Host, req.URL.Path, req.URL.RawQuery, true
+				return req.Method, req.Host, req.URL.EscapedPath(), req.URL.RawQuery, true
 			}
 			methods := []string{"GET", "HEAD", "POST", "G|T", "GET|5:x", "get"}
 			hosts := []string{"h", "H", "example.com", "EXAMPLE.com", "example.com:80", "h|3:GET", "1:h", "[::1]:8080"}
@@ -491,7 +497,7 @@ func init() {
 			// length-prefix arithmetic: components whose lengths differ by a power of two, with the separator and the
 			// tail of one component moved into the next (collide iff a length prefix is truncated or wraps)
 			for _, k := range []int{256, 512, 4096, 65536} {
-				fill := strings.Repeat("x", k-1)
+				fill := strings.Repeat("x", k-3) // "/dl%7C"+fill is k bytes longer than "/dl"
 				am, ah, ap, aq, ok1 := wire("GET", "/dl?"+fill+"|sig=1", "h")
 				bm, bh, bp, bq, ok2 := wire("GET", "/dl%7C"+fill+"?sig=1", "h")
 				if ok1 && ok2 {
@@ -499,7 +505,8 @@ func init() {
 				}
 			}
 			// the two literal collisions of the unfixed tree
-			for _, pr := range [][2]string{{"/a%7Cb?c", "/a?b|c"}, {"/dir/", "/dir"}, {"/a/.", "/a/"}, {"/a/b/..", "/a/"}, {"/a/.", "/a"}} {
+			for _, pr := range [][2]string{{"/a%7Cb?c", "/a?b|c"}, {"/dir/", "/dir"}, {"/a/.", "/a/"}, {"/a/b/..", "/a/"}, {"/a/.", "/a"},
+				{"/a%2Fb", "/a/b"}, {"/a%2fb", "/a/b"}, {"/a%2Fb/", "/a/b/"}, {"/x/a%2F..", "/x/"}, {"/a%3Fb", "/a?b"}, {"/a%2F%2Fb", "/a/b"}} {
 				am, ah, ap, aq, _ := wire("GET", pr[0], "h")
 				bm, bh, bp, bq, _ := wire("GET", pr[1], "h")
 				emit("keypair", "0", hx(am), hx(ah), hx(ap), hx(aq), hx(bm), hx(bh), hx(bp), hx(bq))
